@@ -124,6 +124,8 @@ def make(typ, c, X, flag, **kw):
     n = n_of(c)
     cfg = dict(is_physicality_required=False, on_para_eq_constraint=flag)
     cfg.update(kw)
+    if _EPS_TRUNC[0] is not None and "eps_truncate_imaginary_part" not in cfg:
+        cfg["eps_truncate_imaginary_part"] = _EPS_TRUNC[0]      # non-default constructor option requested by the caller
     if typ == "State":
         return State(c, X.reshape(n).copy(), **cfg)
     if typ == "Povm":
@@ -136,13 +138,14 @@ def make(typ, c, X, flag, **kw):
 
 
 _MP_SHAPE = [None]
+_EPS_TRUNC = [None]
 _HOSTS = {}
 
 
 def physical_host(typ, c, m, flag):
     """a physical object built with is_physicality_required=True (the constructor default, as |0><0|, the Z POVM, the identity
     gate ... are): closures taken from such a host must project unphysical arguments just like closures from any other host"""
-    key = (typ, id(c), m, flag, tuple(_MP_SHAPE[0]) if _MP_SHAPE[0] is not None else None)
+    key = (typ, id(c), m, flag, tuple(_MP_SHAPE[0]) if _MP_SHAPE[0] is not None else None, _EPS_TRUNC[0])
     if key not in _HOSTS:
         kind = [k for k, v in _SYS.items() if v[0] is c][0]
         g = np.random.default_rng(sum(ord(ch) for ch in typ + kind) * 31 + m)
@@ -366,11 +369,22 @@ def gen_param(g, typ, kind, m, scale, cls):
         x = stacked(qobj.rand_mprocess(g, c, m, kraus_rank=int(g.integers(1, 3)), required=False)[0])
     if cls == "near":
         x = x + dy(g, x.shape, 2.0 ** -10 * scale)
+    if cls == "almost":
+        # physical up to a perturbation of relative size ~1e-6 / 1e-9 / 1e-12 (ppm-level mis-normalisation, tiny negative
+        # eigenvalues): below every loose `isclose` tolerance but far above the exactness the property demands
+        e = 2.0 ** -int(g.choice([20, 30, 40]))
+        k = int(g.integers(0, 3))
+        if k == 0:
+            x = x + dy(g, x.shape, e)                    # small noise in every parameter
+        elif k == 1:
+            x = x * (1.0 + e)                            # global mis-normalisation (ppm level and below)
+        else:
+            x = x * (1.0 - e) + dy(g, x.shape, e * 2.0 ** -10)
     return x
 
 
 def cases(ctx, salt, per_cell, kinds, types=TYPES, ms=(2, 3, 4, 5), scales=SCALES,
-          classes=("random", "degenerate", "psd", "boundary", "physical", "near")):
+          classes=("random", "degenerate", "psd", "boundary", "physical", "near", "almost")):
     """deterministic structured sweep: every (type, system, class) cell `per_cell` times with rotating m and scale"""
     g = ctx.npgen(salt)
     k = 0
@@ -379,7 +393,7 @@ def cases(ctx, salt, per_cell, kinds, types=TYPES, ms=(2, 3, 4, 5), scales=SCALE
             for cls in classes:
                 for r in range(per_cell):
                     m = ms[k % len(ms)] if typ in ("Povm", "MProcess") else 1
-                    scale = scales[(k // 2) % len(scales)] if cls not in ("physical",) else 1.0
+                    scale = scales[(k // 2) % len(scales)] if cls not in ("physical", "almost") else 1.0
                     k += 1
                     yield dict(typ=typ, kind=kind, m=m, scale=scale, cls=cls,
                                x=gen_param(g, typ, kind, m, scale, cls), g=g)
@@ -450,7 +464,8 @@ def call_site(typ, c, which, site, flag, x, m, tap=False):
         before = var.copy()
         if site == "var":
             def run():
-                return np.array(getattr(cls, f"calc_proj_{which}_constraint_with_var")(c, var, on_para_eq_constraint=flag),
+                kw2 = {"eps_truncate_imaginary_part": _EPS_TRUNC[0]} if (_EPS_TRUNC[0] is not None and which == "ineq") else {}
+                return np.array(getattr(cls, f"calc_proj_{which}_constraint_with_var")(c, var, on_para_eq_constraint=flag, **kw2),
                                 dtype=np.float64)
         elif site == "func":
             f = getattr(holder, f"func_calc_proj_{which}_constraint")(**kwargs)
@@ -557,7 +572,7 @@ def correspondence(ctx):
     # ---- equality projections: cheap, all sites, both flags
     per = 4 if ctx.quick else 30
     kinds = ("q", "t") if ctx.quick else ("q", "t", "qq")
-    for cs in cases(ctx, 11, per, kinds, classes=("random", "physical", "near", "psd")):
+    for cs in cases(ctx, 11, per, kinds, classes=("random", "physical", "near", "psd", "almost")):
         typ, kind, m, x = cs["typ"], cs["kind"], cs["m"], cs["x"]
         c, _ = system(kind)
         for flag in (False, True):
@@ -665,6 +680,13 @@ def rand_feasible_ineq(g, typ, kind, m, scale):
     return np.concatenate(out)
 
 
+def imag_sig(which, typ, site, bucket):
+    """default threshold: one signature per type (finding D13); non-default `eps_truncate_imaginary_part`: per entry point"""
+    if _EPS_TRUNC[0] is None:
+        return f"C04/{which}/{typ}/raises-imag/scale-{bucket}"
+    return f"C04/{which}/{typ}/{site_base(site)}/raises-imag/eps_truncate_imaginary_part-{_EPS_TRUNC[0]:g}/scale-{bucket}"
+
+
 def sig(which, typ, site, flag, what):
     return f"C04/{which}/{typ}/{site}/{'T' if flag else 'F'}/{what}"
 
@@ -688,8 +710,9 @@ def check_point(ctx, g, which, typ, kind, m, x, scale, cls, ncomp, extra=None):
                             f"{np.max(np.abs(r['arg_before'] - r['arg_after'])):.3g}", rep)
             if r["err"]:
                 if r["err"] == "imag":
-                    ctx.violate(f"C04/{which}/{typ}/raises-imag/scale-{bucket}",
-                                f"{typ} {which} projection raises ValueError(imaginary parts) at parameter scale ~{bucket}", rep)
+                    ctx.violate(imag_sig(which, typ, site, bucket),
+                                f"{typ} {which} projection ({site}) raises ValueError(imaginary parts) at parameter scale ~{bucket}"
+                                + (f" although eps_truncate_imaginary_part={_EPS_TRUNC[0]:g} was requested" if _EPS_TRUNC[0] else ""), rep)
                 else:
                     ctx.violate(sig(which, typ, site, flag, "raises"), f"{r['err']}: {r.get('msg')}", rep)
                 continue
@@ -776,7 +799,7 @@ def check_point(ctx, g, which, typ, kind, m, x, scale, cls, ncomp, extra=None):
                 if r2["err"] != "imag":
                     ctx.violate(sig(which, typ, site, False, "idem-raises"), f"{r2['err']}: {r2.get('msg')}", dict(rep0, flag=False, site=site))
                 else:
-                    ctx.violate(f"C04/{which}/{typ}/raises-imag/scale-{bucket}",
+                    ctx.violate(imag_sig(which, typ, site, bucket),
                                 f"{typ} {which} projection raises ValueError(imaginary parts) at parameter scale ~{bucket}", dict(rep0, flag=False, site=site))
             elif np.max(np.abs(r2["result"] - P)) > 1e-9 * mag:
                 ctx.violate(sig(which, typ, site, False, "not-idempotent"),
@@ -810,6 +833,8 @@ def oracle(ctx, volume=1):
     basis_table_sequence(ctx, volume)
     equal_dim_sequence(ctx, volume)
     mprocess_shapes(ctx, volume)
+    nondefault_eps(ctx, volume)
+    aliased_elements(ctx, volume)
     low_purity(ctx, volume)
 
 
@@ -866,6 +891,59 @@ def mprocess_shapes(ctx, volume=1):
             ctx.violate(f"C04/eq/MProcess/{nm}/tensor-shape/not-nearest",
                         f"tensor product of two 2-outcome m-processes (shape {tuple(tp.shape)}): {nm} result differs from the nearest "
                         f"feasible point by {np.max(np.abs(val - ref)):.3g}", rep)
+
+
+def nondefault_eps(ctx, volume=1):
+    """objects built with a non-default `eps_truncate_imaginary_part` (1e-8): the option must reach `truncate_hs` from every
+    entry point, so that parameters of size 1e2..1e3 are projected (the default 1e-13 is what finding D13 is about)"""
+    g = ctx.npgen(13)
+    _EPS_TRUNC[0] = 1e-8
+    try:
+        for typ, kind, m in (("State", "q", 1), ("State", "t", 1), ("Povm", "q", 3), ("Gate", "q", 1), ("MProcess", "q", 2)):
+            for scale in (128.0, 1024.0):
+                for _ in range(volume):
+                    x = gen_param(g, typ, kind, m, scale, "random")
+                    ctx.count(f"oracle non-default eps_truncate_imaginary_part {typ} {kind} scale={SCALE_NAME[scale]}")
+                    check_point(ctx, g, "ineq", typ, kind, m, x, scale, "random", 2, extra={"eps_trunc": 1e-8})
+    finally:
+        _EPS_TRUNC[0] = None
+
+
+def aliased_elements(ctx, volume=1):
+    """objects whose element list contains the SAME ndarray object more than once (`[A, A, B]`, `[hs] * m`): the projection
+    must treat the elements as values"""
+    g = ctx.npgen(14)
+    c, _ = system("q")
+    n = 4
+    fixed = [("MProcess", [np.eye(4), None, np.zeros((4, 4))])]
+    for t in range(2 * volume):
+        A, B = dy(g, (n, n), 1.0), dy(g, (n, n), 1.0)
+        fixed.append(("MProcess", [A, None, B] if t % 2 == 0 else [B, A, None]))
+        a, b = dy(g, n, 1.0), dy(g, n, 1.0)
+        fixed.append(("Povm", [a, None, b] if t % 2 == 0 else [b, a, None, None]))
+    for typ, elems in fixed:
+        first = next(e for e in elems if e is not None)
+        elems = [first if e is None else e for e in elems]         # None -> the very same object as the first element
+        m = len(elems)
+        x = np.concatenate([np.ravel(e) for e in elems]).astype(float)
+        rep = {"which": "eq", "typ": typ, "system": "q", "m": m, "x": x.tolist(), "kind": "aliased",
+               "alias": [int(next(i for i, f in enumerate(elems) if f is e)) for e in elems]}
+        for which in ("eq", "ineq"):
+            ctx.case(("oracle", "aliased", which, typ, tuple(x.tolist())))
+            try:
+                obj = CLS[typ](c, list(elems), is_physicality_required=False, on_para_eq_constraint=False)
+                before = stacked(obj)
+                r = stacked(getattr(obj, f"calc_proj_{which}_constraint")())
+                after = stacked(obj)
+            except Exception as e:  # noqa
+                ctx.violate(f"C04/{which}/{typ}/obj/aliased-elements/raises", f"{type(e).__name__}: {str(e)[:120]}", dict(rep, which=which)); continue
+            ref = eq_ref(typ, c, m, x) if which == "eq" else ineq_ref(typ, "q", x)
+            if not np.array_equal(before, after):
+                ctx.violate(f"C04/{which}/{typ}/obj/aliased-elements/mutates-argument", "the object was modified", dict(rep, which=which))
+            if np.max(np.abs(r - ref)) > 1e-9 * max(1.0, float(np.max(np.abs(x)))):
+                ctx.violate(f"C04/{which}/{typ}/obj/aliased-elements/not-nearest",
+                            f"{typ} whose element list contains the same ndarray twice (positions {rep['alias']}): result differs from "
+                            f"the nearest feasible point by {np.max(np.abs(r - ref)):.3g}", dict(rep, which=which))
 
 
 def equal_dim_sequence(ctx, volume=1):
@@ -932,14 +1010,19 @@ def replay(ctx, data):
     before = len(ctx.violations)
     if r.get("kind") == "tensor":
         mprocess_shapes(ctx)
+    elif r.get("kind") == "aliased":
+        aliased_elements(ctx)
     else:
+        _EPS_TRUNC[0] = r.get("eps_trunc")
         warm_siblings(r["system"])
         _MP_SHAPE[0] = tuple(r["shape"]) if r.get("shape") else None
         try:
             check_point(ctx, ctx.npgen(1), r["which"], r["typ"], r["system"], r["m"], np.array(r["x"], dtype=float), r.get("scale", 1.0),
-                        r.get("class", "random"), 8, extra={"shape": r["shape"]} if r.get("shape") else None)
+                        r.get("class", "random"), 8,
+                        extra={k: r[k] for k in ("shape", "eps_trunc") if r.get(k) is not None} or None)
         finally:
             _MP_SHAPE[0] = None
+            _EPS_TRUNC[0] = None
     for v in ctx.violations[before:]:
         print(" ", v["signature"], "--", v["what"])
     hit = [v for v in ctx.violations[before:] if v["signature"] == data.get("signature")]
